@@ -14,238 +14,33 @@ import (
 
 const wsChars = " \t\n\r\v\f"
 
-func reOfSet(chars string) string {
-	var parts []string
-	for _, c := range []byte(chars) {
-		parts = append(parts, "(str.to_re "+smtString(string(c))+")")
-	}
-	if len(parts) == 1 {
-		return parts[0]
-	}
-	return "(re.union " + strings.Join(parts, " ") + ")"
-}
-
-// inSet: the one-character string x is a member of chars.
-func inSet(x *Term, chars string) *Term {
-	var ds []*Term
-	for _, c := range []byte(chars) {
-		ds = append(ds, Eq(x, StrC(string(c))))
-	}
-	return Or(ds...)
-}
-
 func (e *Engine) define(st *State, c *Term) { st.assumes = And(st.assumes, c) }
 
-func (e *Engine) freshStr(st *State, prefix string, max int64) *Term {
-	v := e.fresh(prefix, KStr, 0)
-	if max >= 0 {
-		v.Max = max
-		e.define(st, IntBin("<=", StrLen(v), IntC(max)))
+// freshStr is an unconstrained (but well-formed) string of at most max bytes.
+func (e *Engine) freshStr(st *State, prefix string, max int) *Term {
+	if !strTheory {
+		return e.fresh(prefix, KStr, 0)
 	}
+	e.nvar++
+	v := intern(&Term{K: KStr, W: 8 * (max + 1), Op: "var", Name: fmt.Sprintf("%s%s_%d", e.prefix, prefix, e.nvar), Max: int64(max)})
+	e.define(st, sWellFormed(v, max))
 	return v
 }
 
-func strMaxOf(s *Term, dflt int) int64 {
-	if s.Max >= 0 {
-		return s.Max
-	}
-	return int64(dflt * 4)
-}
+const ufCap = 24
 
-// strTrim models strings.Trim(s, cutset) / TrimSpace for a constant cutset.
-func (e *Engine) strTrim(st *State, s *Term, cutset string, left, right bool) *Term {
-	if s.IsConst {
-		switch {
-		case left && right:
-			return StrC(strings.Trim(s.S, cutset))
-		case left:
-			return StrC(strings.TrimLeft(s.S, cutset))
-		default:
-			return StrC(strings.TrimRight(s.S, cutset))
-		}
+// ufStr: casing functions as uninterpreted functions over bounded strings (same symbol on both
+// sides of an oracle); results are assumed to be well-formed strings.
+func (e *Engine) ufStr(st *State, name string, arg *Term) *Term {
+	if !strTheory {
+		return mk(KStr, 0, "uf:"+name, arg)
 	}
-	e.needTheory("strings.Trim")
-	mx := strMaxOf(s, e.strMax)
-	r := e.freshStr(st, "trim", mx)
-	a, b := StrC(""), StrC("")
-	if left {
-		a = e.freshStr(st, "triml", mx)
-		e.define(st, mk(KBool, 0, "str.in_re", a, reTerm("(re.* "+reOfSet(cutset)+")")))
+	if sCap(arg) > ufCap {
+		panic(unsupported("casing function applied to a string of capacity %d", sCap(arg)))
 	}
-	if right {
-		b = e.freshStr(st, "trimr", mx)
-		e.define(st, mk(KBool, 0, "str.in_re", b, reTerm("(re.* "+reOfSet(cutset)+")")))
-	}
-	e.define(st, Eq(s, StrConcat(StrConcat(a, r), b)))
-	var ends []*Term
-	if left {
-		ends = append(ends, Not(inSet(mk(KStr, 0, "str.at", r, IntC(0)), cutset)))
-	}
-	if right {
-		ends = append(ends, Not(inSet(mk(KStr, 0, "str.at", r, IntBin("-", StrLen(r), IntC(1))), cutset)))
-	}
-	e.define(st, Or(Eq(r, StrC("")), And(ends...)))
-	return r
-}
-
-// reTerm wraps a regular-expression literal so that it can be an argument of str.in_re.
-func reTerm(src string) *Term {
-	return intern(&Term{K: KInt, Op: "re", Name: src, Max: -1})
-}
-
-// strIndexBV: strings.Index as a signed 64-bit value.
-func (e *Engine) strIndexBV(s, sub *Term) *Term {
-	if s.IsConst && sub.IsConst {
-		return BVC(64, uint64(int64(strings.Index(s.S, sub.S))))
-	}
-	e.needTheory("strings.Index")
-	idx := strIndexOf(s, sub, IntC(0))
-	return Ite(IntBin("<", idx, IntC(0)), BVC(64, ^uint64(0)), Int2BV(idx))
-}
-
-// strLastIndexBV: strings.LastIndex via a defined fresh index.
-func (e *Engine) strLastIndexBV(st *State, s, sub *Term) *Term {
-	if s.IsConst && sub.IsConst {
-		return BVC(64, uint64(int64(strings.LastIndex(s.S, sub.S))))
-	}
-	e.needTheory("strings.LastIndex")
-	i := e.fresh("lastidx", KInt, 0)
-	none := And(Eq(i, IntC(-1)), Not(strContains(s, sub)))
-	n := StrLen(sub)
-	rest := substr(s, IntBin("+", i, IntC(1)), IntBin("-", StrLen(s), IntBin("+", i, IntC(1))))
-	some := And(IntBin("<=", IntC(0), i), Eq(substr(s, i, n), sub), IntBin("<=", IntBin("+", i, n), StrLen(s)), Not(strContains(rest, sub)))
-	e.define(st, Or(none, some))
-	r := Ite(IntBin("<", i, IntC(0)), BVC(64, ^uint64(0)), Int2BV(i))
-	return r
-}
-
-// strLastIndexAnyBV: strings.LastIndexAny(s, chars) for constant chars.
-func (e *Engine) strLastIndexAnyBV(st *State, s *Term, chars string) *Term {
-	if s.IsConst {
-		return BVC(64, uint64(int64(strings.LastIndexAny(s.S, chars))))
-	}
-	e.needTheory("strings.LastIndexAny")
-	i := e.fresh("lastany", KInt, 0)
-	notSet := reTerm("(re.* (re.diff re.allchar " + reOfSet(chars) + "))")
-	none := And(Eq(i, IntC(-1)), mk(KBool, 0, "str.in_re", s, notSet))
-	rest := substr(s, IntBin("+", i, IntC(1)), IntBin("-", StrLen(s), IntBin("+", i, IntC(1))))
-	some := And(IntBin("<=", IntC(0), i), IntBin("<", i, StrLen(s)), inSet(mk(KStr, 0, "str.at", s, i), chars), mk(KBool, 0, "str.in_re", rest, notSet))
-	e.define(st, Or(none, some))
-	return Ite(IntBin("<", i, IntC(0)), BVC(64, ^uint64(0)), Int2BV(i))
-}
-
-// strSplit models strings.Split(s, sep) for a constant, non-empty sep with at most e.splitMax parts.
-func (e *Engine) strSplit(st *State, t types.Type, s *Term, sep string) Value {
-	et := types.Typ[types.String]
-	mkSlice := func(parts []Value, ln *Term) Value {
-		arr := &ArrayV{F: parts}
-		o := newObj(types.NewArray(et, int64(len(parts))))
-		st.heap[o] = arr
-		return &SliceV{Nil: FalseT, Len: ln, Arr: o, Max: len(parts)}
-	}
-	if s.IsConst {
-		ps := strings.Split(s.S, sep)
-		var vs []Value
-		for _, p := range ps {
-			vs = append(vs, StrC(p))
-		}
-		return mkSlice(vs, BVC(64, uint64(len(vs))))
-	}
-	e.needTheory("strings.Split")
-	n := e.splitMax
-	parts := make([]Value, n)
-	rest := s
-	ln := BVC(64, 0)
-	done := FalseT // a previous part was the last one
-	sepT := StrC(sep)
-	for k := 0; k < n; k++ {
-		idx := strIndexOf(rest, sepT, IntC(0))
-		last := IntBin("<", idx, IntC(0))
-		part := Ite(last, rest, substr(rest, IntC(0), idx))
-		part.Max = strMaxOf(s, e.strMax)
-		parts[k] = Ite(done, StrC(""), part)
-		ln = Ite(done, ln, BVC(64, uint64(k+1)))
-		nrest := substr(rest, IntBin("+", idx, IntC(int64(len(sep)))), StrLen(rest))
-		nrest.Max = strMaxOf(s, e.strMax)
-		if k == n-1 {
-			// stated bound: at most n parts
-			e.define(st, Or(done, last))
-			e.bounds["strings.Split yields at most "+fmt.Sprint(n)+" parts"] = true
-		}
-		done = Or(done, last)
-		rest = nrest
-	}
-	ln.Max = int64(n)
-	return mkSlice(parts, ln)
-}
-
-// strJoin models strings.Join(parts, sep).
-func (e *Engine) strJoin(st *State, sl *SliceV, sep *Term) *Term {
-	cells := sliceCells(st, sl)
-	r := StrC("")
-	for i := 0; i < sl.Max && i < len(cells); i++ {
-		p := cells[i].(*Term)
-		var nx *Term
-		if i == 0 {
-			nx = p
-		} else {
-			nx = StrConcat(StrConcat(r, sep), p)
-		}
-		r = Ite(BVBin("<", BVC(64, uint64(i)), sl.Len, true), nx, r)
-	}
-	return r
-}
-
-// strReplaceAll models strings.ReplaceAll for constant, non-empty old (bounded number of occurrences).
-func (e *Engine) strReplaceAll(st *State, s *Term, old, nw string) *Term {
-	if s.IsConst {
-		return StrC(strings.ReplaceAll(s.S, old, nw))
-	}
-	e.needTheory("strings.ReplaceAll")
-	n := int(strMaxOf(s, e.strMax))/len(old) + 1
-	out := StrC("")
-	rest := s
-	done := FalseT
-	oldT, nwT := StrC(old), StrC(nw)
-	for k := 0; k < n; k++ {
-		idx := strIndexOf(rest, oldT, IntC(0))
-		last := IntBin("<", idx, IntC(0))
-		piece := Ite(last, rest, StrConcat(substr(rest, IntC(0), idx), nwT))
-		out = Ite(done, out, StrConcat(out, piece))
-		rest = substr(rest, IntBin("+", idx, IntC(int64(len(old)))), StrLen(rest))
-		done = Or(done, last)
-	}
-	out = Ite(done, out, StrConcat(out, rest))
-	out.Max = strMaxOf(s, e.strMax) * int64(len(nw)+1)
-	return out
-}
-
-func lowerChar(x *Term) *Term {
-	c := mk(KInt, 0, "str.to_code", x)
-	up := And(IntBin("<=", IntC(65), c), IntBin("<=", c, IntC(90)))
-	return Ite(up, mk(KStr, 0, "str.from_code", IntBin("+", c, IntC(32))), x)
-}
-
-func (e *Engine) strToLower(s *Term) *Term {
-	if s.IsConst {
-		return StrC(strings.ToLower(s.S))
-	}
-	e.needTheory("strings.ToLower")
-	n := int(strMaxOf(s, e.strMax))
-	r := StrC("")
-	for i := 0; i < n; i++ {
-		r = StrConcat(r, lowerChar(mk(KStr, 0, "str.at", s, IntC(int64(i)))))
-	}
-	r.Max = int64(n)
-	return r
-}
-
-// UF application (strcase): the same function symbol on both sides of an oracle.
-func (e *Engine) ufStr(name string, arg *Term) *Term {
-	t := mk(KStr, 0, "uf:"+name, arg)
-	if arg.Max >= 0 {
-		t.Max = arg.Max * 2
-	}
+	t := mk(KStr, 8*(ufCap+1), "uf:"+name, sPad(arg, ufCap))
+	t.Max = ufCap
+	e.define(st, sWellFormed(t, ufCap))
 	return t
 }
 
@@ -307,54 +102,100 @@ func (e *Engine) kIntrinsic(fn *ssa.Function, name string, args []Value, st *Sta
 	str := func(i int) *Term { return args[i].(*Term) }
 	cst := func(i int, what string) string { return constStr(args[i], what) }
 	switch name {
-	case "strings.Contains":
-		return strContains(str(0), str(1)), st, true
-	case "strings.HasPrefix":
-		return strPrefixOf(str(1), str(0)), st, true
-	case "strings.HasSuffix":
-		return strSuffixOf(str(1), str(0)), st, true
-	case "strings.Index":
-		return e.strIndexBV(str(0), str(1)), st, true
-	case "strings.LastIndex":
-		return e.strLastIndexBV(st, str(0), str(1)), st, true
+	case "strings.Contains", "strings.HasPrefix", "strings.HasSuffix", "strings.Index", "strings.LastIndex":
+		a, b := str(0), str(1)
+		if !(a.IsConst && b.IsConst) {
+			e.needTheory(name)
+			capGuard(a, b)
+		}
+		switch name {
+		case "strings.Contains":
+			return sContains(a, b), st, true
+		case "strings.HasPrefix":
+			return sHasPrefix(a, b), st, true
+		case "strings.HasSuffix":
+			return sHasSuffix(a, b), st, true
+		case "strings.Index":
+			return sIndex(a, b), st, true
+		default:
+			return sLastIndex(a, b), st, true
+		}
 	case "strings.LastIndexAny":
-		return e.strLastIndexAnyBV(st, str(0), cst(1, "LastIndexAny chars")), st, true
+		s, chars := str(0), cst(1, "LastIndexAny chars")
+		if s.IsConst {
+			return BVC(64, uint64(int64(strings.LastIndexAny(s.S, chars)))), st, true
+		}
+		e.needTheory(name)
+		capGuard(s)
+		r := BVC(64, ^uint64(0))
+		for i := 0; i < sCap(s); i++ {
+			r = Ite(And(BVBin("<", BVC(8, uint64(i)), sLen8(s), false), byteInSet(sChar(s, i), chars)), BVC(64, uint64(i)), r)
+		}
+		return r, st, true
 	case "strings.TrimSpace":
-		return e.strTrim(st, str(0), wsChars, true, true), st, true
+		if !str(0).IsConst {
+			e.needTheory(name)
+			capGuard(str(0))
+		}
+		return sTrim(str(0), wsChars, true, true), st, true
 	case "strings.Trim":
-		return e.strTrim(st, str(0), cst(1, "Trim cutset"), true, true), st, true
+		if !str(0).IsConst {
+			e.needTheory(name)
+			capGuard(str(0))
+		}
+		return sTrim(str(0), cst(1, "Trim cutset"), true, true), st, true
 	case "strings.TrimPrefix":
 		s, p := str(0), str(1)
 		if s.IsConst && p.IsConst {
 			return StrC(strings.TrimPrefix(s.S, p.S)), st, true
 		}
-		r := Ite(strPrefixOf(p, s), substr(s, StrLen(p), StrLen(s)), s)
-		r.Max = strMaxOf(s, e.strMax)
-		return r, st, true
+		e.needTheory(name)
+		capGuard(s, p)
+		return Ite(sHasPrefix(s, p), sSubstr(s, sLen8(p), BVBin("-", sLen8(s), sLen8(p), false)), s), st, true
 	case "strings.Split":
-		return e.strSplit(st, fn.Signature.Results().At(0).Type(), str(0), cst(1, "Split separator")), st, true
+		return e.strSplit(st, str(0), cst(1, "Split separator")), st, true
 	case "strings.Join":
 		return e.strJoin(st, args[0].(*SliceV), str(1)), st, true
 	case "strings.ReplaceAll":
-		return e.strReplaceAll(st, str(0), cst(1, "ReplaceAll old"), cst(2, "ReplaceAll new")), st, true
+		if !str(0).IsConst {
+			e.needTheory(name)
+			capGuard(str(0))
+		}
+		return sReplaceAll(str(0), cst(1, "ReplaceAll old"), cst(2, "ReplaceAll new")), st, true
 	case "strings.Replace":
 		n := args[3].(*Term)
+		s := str(0)
+		if !s.IsConst {
+			e.needTheory(name)
+			capGuard(s)
+		}
 		if n.IsConst && int64(n.BV) < 0 {
-			return e.strReplaceAll(st, str(0), cst(1, "Replace old"), cst(2, "Replace new")), st, true
+			return sReplaceAll(s, cst(1, "Replace old"), cst(2, "Replace new")), st, true
 		}
 		if n.IsConst && n.BV == 1 {
-			return strReplace(str(0), str(1), str(2)), st, true
+			old, nw := cst(1, "Replace old"), cst(2, "Replace new")
+			if s.IsConst {
+				return StrC(strings.Replace(s.S, old, nw, 1)), st, true
+			}
+			idx := sIndex(s, StrC(old))
+			i8 := BVConv(idx, 64, 8, false)
+			from := BVBin("+", i8, BVC(8, uint64(len(old))), false)
+			rep := sConcat(sConcat(sSubstr(s, BVC(8, 0), i8), StrC(nw)), sSubstr(s, from, BVBin("-", sLen8(s), from, false)))
+			return Ite(BVBin("<", idx, BVC(64, 0), true), s, rep), st, true
 		}
 		panic(unsupported("strings.Replace with n=%v", describe(n)))
 	case "strings.ToLower":
-		return e.strToLower(str(0)), st, true
+		if !str(0).IsConst {
+			e.needTheory(name)
+			capGuard(str(0))
+		}
+		return sToLower(str(0)), st, true
 	case "strconv.Itoa":
 		t := str(0)
 		if t.IsConst {
 			return StrC(fmt.Sprint(sext(t.BV, 64))), st, true
 		}
-		e.needTheory("strconv.Itoa")
-		return mk(KStr, 0, "int.to.str", BV2Int(t)), st, true
+		panic(unsupported("strconv.Itoa of a symbolic integer"))
 	case "strconv.ParseBool":
 		s := str(0)
 		tv := Or(Eq(s, StrC("1")), Eq(s, StrC("t")), Eq(s, StrC("T")), Eq(s, StrC("TRUE")), Eq(s, StrC("true")), Eq(s, StrC("True")))
@@ -362,10 +203,40 @@ func (e *Engine) kIntrinsic(fn *ssa.Function, name string, args []Value, st *Sta
 		bad := And(Not(tv), Not(fv))
 		errV := mergeV(st, bad, e.opaqueError(st, "strconv.ParseBool: invalid syntax"), zero(fn.Signature.Results().At(1).Type()))
 		return &TupleV{F: []Value{tv, errV}}, st, true
+	case "strings.Count":
+		s, sub := str(0), cst(1, "Count substring")
+		if len(sub) != 1 {
+			panic(unsupported("strings.Count with a multi-character substring"))
+		}
+		if s.IsConst {
+			return BVC(64, uint64(strings.Count(s.S, sub))), st, true
+		}
+		e.needTheory(name)
+		capGuard(s)
+		n := sCap(s)
+		total := BVC(64, 0)
+		for i := 0; i < n; i++ {
+			hit := And(BVBin("<", BVC(8, uint64(i)), sLen8(s), false), Eq(sChar(s, i), BVC(8, uint64(sub[0]))))
+			total = BVBin("+", total, Ite(hit, BVC(64, 1), BVC(64, 0)), true)
+		}
+		total.Max = int64(n)
+		return total, st, true
+	case "io/ioutil.ReadFile", "os.ReadFile":
+		if e.cfgFile == nil {
+			panic(unsupported("ReadFile without a vrtConfigFile environment"))
+		}
+		errT := fn.Signature.Results().At(1).Type()
+		errV := mergeV(st, e.cfgFile.ReadErr, e.opaqueError(st, "open: no such file"), zero(errT))
+		return &TupleV{F: []Value{&BytesV{Nil: FalseT, S: e.freshStr(st, "filebytes", e.strMax)}, errV}}, st, true
+	case "gopkg.in/yaml.v3.Unmarshal":
+		return e.yamlUnmarshal(fn, args, st), st, true
+	case "(*github.com/gravitational/protoc-gen-terraform/v3.Config).dump":
+		e.stubs["Config.dump (logging only)"]++
+		return nil, st, true
 	case "github.com/stoewer/go-strcase.SnakeCase":
-		return e.ufStr("snake", str(0)), st, true
+		return e.ufStr(st, "snake", str(0)), st, true
 	case "github.com/stoewer/go-strcase.UpperCamelCase":
-		return e.ufStr("ucamel", str(0)), st, true
+		return e.ufStr(st, "ucamel", str(0)), st, true
 	case "github.com/gravitational/trace.Wrap":
 		// Wrap(nil) = nil; Wrap(err) is an error again: the original is returned
 		return args[0], st, true
@@ -543,4 +414,94 @@ func (e *Engine) genStub(fn *ssa.Function, name string, args []Value, st *State)
 		return And(Eq(typ, BVC(32, typeMsgNum)), Eq(label, BVC(32, labelRep)), isEntry), st, true
 	}
 	return nil, st, false
+}
+
+// yamlUnmarshal: environment stub. On a parse error the target is untouched; otherwise the file's
+// single `types` entry (if any) is stored into the target Config.
+func (e *Engine) yamlUnmarshal(fn *ssa.Function, args []Value, st *State) Value {
+	if e.cfgFile == nil {
+		panic(unsupported("yaml.Unmarshal without a vrtConfigFile environment"))
+	}
+	env := e.cfgFile
+	errT := fn.Signature.Results().At(0).Type()
+	iv, ok := args[1].(*IfaceV)
+	if !ok || len(iv.Alts) != 1 {
+		panic(unsupported("yaml.Unmarshal target"))
+	}
+	pp := iv.Alts[0].V.(*PtrV)                                   // **Config
+	cp := e.load(st, pp, types.NewPointer(types.Typ[types.Int])) // *Config
+	cfgPtr, ok := cp.(*PtrV)
+	if !ok {
+		panic(unsupported("yaml.Unmarshal target is %T", cp))
+	}
+	for _, a := range cfgPtr.Alts {
+		if a.O == nil {
+			continue
+		}
+		cell, _ := e.cell(st, a.O)
+		sv := getPath(cell, a.Path).(*StructV)
+		stt := sv.T.Underlying().(*types.Struct)
+		for i := 0; i < stt.NumFields(); i++ {
+			if stt.Field(i).Name() != "Types" {
+				continue
+			}
+			mo := newObj(stt.Field(i).Type())
+			st.heap[mo] = &MapC{Ents: []MEnt{{P: TrueT, K: env.Typ, V: zero(stt.Field(i).Type().Underlying().(*types.Map).Elem())}}}
+			set := And(a.G, Not(env.YamlErr), Not(Eq(env.Typ, StrC(""))))
+			nv := mergeV(st, set, &MapV{Alts: []MAlt{{G: TrueT, O: mo}}}, sv.F[i])
+			st.heap[a.O] = setPath(cell, append(append([]int(nil), a.Path...), i), nv)
+		}
+	}
+	e.stubs["yaml.Unmarshal (environment: one `types` entry or a parse error)"]++
+	return mergeV(st, env.YamlErr, e.opaqueError(st, "yaml: parse error"), zero(errT))
+}
+
+// strSplit: strings.Split for a constant single-character separator, at most e.splitMax parts.
+func (e *Engine) strSplit(st *State, s *Term, sep string) Value {
+	et := types.Typ[types.String]
+	mkSlice := func(parts []Value, ln *Term) Value {
+		arr := &ArrayV{F: parts}
+		o := newObj(types.NewArray(et, int64(len(parts))))
+		st.heap[o] = arr
+		return &SliceV{Nil: FalseT, Len: ln, Arr: o, Max: len(parts)}
+	}
+	if s.IsConst {
+		var vs []Value
+		for _, p := range strings.Split(s.S, sep) {
+			vs = append(vs, StrC(p))
+		}
+		return mkSlice(vs, BVC(64, uint64(len(vs))))
+	}
+	e.needTheory("strings.Split")
+	capGuard(s)
+	if len(sep) != 1 {
+		panic(unsupported("strings.Split with a separator of %d bytes", len(sep)))
+	}
+	parts, count, more := sSplit(s, sep[0], e.splitMax)
+	// stated bound: at most splitMax parts
+	e.define(st, Not(more))
+	e.bounds[fmt.Sprintf("strings.Split yields at most %d parts", e.splitMax)] = true
+	vs := make([]Value, len(parts))
+	for i, p := range parts {
+		vs[i] = p
+	}
+	count.Max = int64(len(parts))
+	return mkSlice(vs, count)
+}
+
+// strJoin: strings.Join over a slice of bounded length.
+func (e *Engine) strJoin(st *State, sl *SliceV, sep *Term) *Term {
+	cells := sliceCells(st, sl)
+	r := StrC("")
+	for i := 0; i < sl.Max && i < len(cells); i++ {
+		p := cells[i].(*Term)
+		var nx *Term
+		if i == 0 {
+			nx = p
+		} else {
+			nx = StrConcat(StrConcat(r, sep), p)
+		}
+		r = Ite(BVBin("<", BVC(64, uint64(i)), sl.Len, true), nx, r)
+	}
+	return r
 }
